@@ -1,4 +1,4 @@
-"""C20, open finding product-equation-parameter-collision.
+"""C20, finding (repaired by fix FIXHASH_EQ; exit 0 on a tree with the fix) product-equation-parameter-collision.
 
 PYTHONPATH=/repo /venv/bin/python findings/c20_product_parameter_collision.py   (exit 1 = defect present)
 
